@@ -41,8 +41,9 @@ DEFAULTS = ["d0", "d1", "d2", "", "", "d 3", 'd"4', "d\\5", LONG]
 PATHS = ["../x", "../y", "../z", "../w", "", "../a b", '../q"c']
 
 
-# small enumerations of equal size that differ only in one name -- at value 0, or at a later value -- or not at all:
-# union member de-duplication (YangType.Equal on the name -> value maps) has to tell them apart exactly
+# small enumerations (also used as bit sets) of equal size that differ only in one name -- at value 0, or at a later
+# value -- or not at all: union member de-duplication (YangType.Equal on the name -> value maps of Enum and Bit) has
+# to tell them apart exactly
 ENUM_CLUSTER = [["up"], ["down"], ["on", "shared"], ["off", "shared"], ["shared", "on"], ["shared", "off"],
                 ["a", "b"], ["a", "c"], ["x", "y", "z"], ["w", "y", "z"], ["x", "y", "w"], ["up"], ["on", "shared"]]
 
